@@ -54,6 +54,10 @@ def drive(sh, prop, cfg, klass, requests=('hit', 'hit2', 'hit-slashes', 'hit-abs
             sh.hit('nonunique-type-on-two-levels')
         if cfg['route'].get('siblings'):
             sh.hit('sibling-routes-with-own-middlewares')
+            if any(l.get('embed') == 'subapp-own-slashes' for l in cfg['levels']):
+                sh.hit('embedded-keeping-own-slash-mode')
+            if cfg.get('rebound_elsewhere'):
+                sh.hit('innermost-application-also-mounted-elsewhere')
             if cfg['route'].get('sibling_provides'):
                 sh.hit('sibling-middleware-provides-a-name-the-route-mentions')
         if cfg['route'].get('decoys'):
